@@ -4,6 +4,7 @@ package main
 
 import (
 	"fmt"
+	"sync"
 	"time"
 
 	mod "github.com/craterdog/go-collection-framework/v4"
@@ -47,6 +48,29 @@ func facadeLine(out *Out, caseID int, ctor, form, ty string, n int, npos int, mo
 		j[k] = v
 	}
 	out.emit(j)
+}
+
+// facadeLinePre: the module-level result was obtained beforehand (e.g. concurrently with others)
+func facadeLinePre(out *Out, caseID int, ctor, form, ty string, n int, npos int, mo string, mb built, clsF func() any, extra J) {
+	co, cb := tryBuild(clsF)
+	j := J{"k": "facade", "pid": "C20", "case": caseID, "ctor": ctor, "form": form, "ty": ty, "n": n, "npos": npos,
+		"mod": J{"out": mo, "v": mb.val, "cap": mb.cap, "gotype": mb.ty}, "cls": J{"out": co, "v": cb.val, "cap": cb.cap, "gotype": cb.ty}}
+	for k, v := range extra {
+		j[k] = v
+	}
+	out.emit(j)
+}
+
+// a notation instance that is used again and again, also after it has rejected a source
+var reusedNotation col.NotationLike
+
+func rejectOnReused() {
+	if reusedNotation == nil {
+		reusedNotation = mod.CDCN()
+	}
+	for _, bad := range []string{"[1, 2", "[\n    1\n    2\n](List)\n", "[1, 2](Lisp)\n"} {
+		guarded(5*time.Second, func() { reusedNotation.ParseSource(bad) })
+	}
 }
 
 // withNotation places an explicit notation argument nowhere (0), first (1) or last (2)
@@ -121,6 +145,14 @@ func c20Values[V any](out *Out, tier string, caseID *int, ty string, gen func(i 
 			emit("List", "sequence", func() any { return mod.List[V](withNotation(np, seq())...) }, func() any { return col.List[V](notation).MakeFromSequence(seq()) }, nil)
 			emit("List", "source", func() any { return mod.List[V](withNotation(np, sourceOf("List", items))...) }, func() any { return col.List[V](notation).MakeFromArray(vs) },
 				J{"parsed": safeParse(sourceOf("List", items))})
+			if np == 1 {
+				// the same notation instance serves many constructor calls, also after it rejected a source
+				rejectOnReused()
+				emit("List", "source", func() any { return mod.List[V](reusedNotation, sourceOf("List", items)) }, func() any { return col.List[V](notation).MakeFromArray(vs) },
+					J{"parsed": safeParse(sourceOf("List", items)), "fam": "reused-notation-after-rejection"})
+				emit("Stack", "source", func() any { return mod.Stack[V](reusedNotation, sourceOf("Stack", items)) }, func() any { return col.Stack[V](notation).MakeFromArray(vs) },
+					J{"parsed": safeParse(sourceOf("Stack", items)), "fam": "reused-notation"})
+			}
 			// Set
 			emit("Set", "goarray", func() any { return mod.Set[V](withNotation(np, vs)...) }, func() any { return col.Set[V](notation).MakeFromArray(vs) }, nil)
 			emit("Set", "sequence", func() any { return mod.Set[V](withNotation(np, seq())...) }, func() any { return col.Set[V](notation).MakeFromSequence(seq()) }, nil)
@@ -157,6 +189,94 @@ func c20Values[V any](out *Out, tier string, caseID *int, ty string, gen func(i 
 			emit("Queue", "sequence", func() any { return mod.Queue[V](withNotation(np, seq())...) }, func() any { return col.Queue[V](notation).MakeFromSequence(seq()) }, nil)
 			emit("Queue", "source", func() any { return mod.Queue[V](withNotation(np, sourceOf("Queue", items))...) }, func() any { return col.Queue[V](notation).MakeFromArray(vs) },
 				J{"parsed": safeParse(sourceOf("Queue", items))})
+		}
+	}
+	// concurrent callers of the source form (no explicit notation): every goroutine parses its own source
+	{
+		const G = 6
+		rounds := 12
+		if tier == "thorough" {
+			rounds = 40
+		}
+		type result struct {
+			mo string
+			mb built
+		}
+		type job struct {
+			vs    []V
+			items []any
+			src   string
+			mu    sync.Mutex
+			res   []result // the distinct results this goroutine saw
+			done  bool
+		}
+		jobs := make([]*job, G)
+		for g := 0; g < G; g++ {
+			n := 3 + 4*g
+			vs := make([]V, n)
+			for i := range vs {
+				vs[i] = gen(i + 11*g)
+			}
+			items := anyItems(vs)
+			jobs[g] = &job{vs: vs, items: items, src: sourceOf("List", items)}
+		}
+		build := func(src string) (r result) {
+			defer func() {
+				if x := recover(); x != nil {
+					r = result{mo: "panic:" + classify(x)}
+				}
+			}()
+			return result{mo: "ret", mb: describe(mod.List[V](src))}
+		}
+		finished := make(chan int, G)
+		for g := 0; g < G; g++ {
+			go func(g int, jb *job) {
+				for r := 0; r < rounds; r++ {
+					res := build(jb.src)
+					jb.mu.Lock()
+					seen := false
+					for _, o := range jb.res {
+						seen = seen || (o.mo == res.mo && fmt.Sprint(o.mb.val) == fmt.Sprint(res.mb.val))
+					}
+					if !seen && len(jb.res) < 3 {
+						jb.res = append(jb.res, res)
+					}
+					jb.mu.Unlock()
+				}
+				jb.mu.Lock()
+				jb.done = true
+				jb.mu.Unlock()
+				finished <- g
+			}(g, jobs[g])
+		}
+		deadline := time.After(30 * time.Second)
+	wait:
+		for n := 0; n < G; n++ {
+			select {
+			case <-finished:
+			case <-deadline:
+				break wait
+			}
+		}
+		for g := 0; g < G; g++ {
+			jb := jobs[g]
+			jb.mu.Lock()
+			results := append([]result{}, jb.res...)
+			if !jb.done {
+				results = append(results, result{mo: "hang"})
+			}
+			jb.mu.Unlock()
+			dataJ := make([]any, len(jb.items))
+			for i, it := range jb.items {
+				dataJ[i] = encVal(it)
+			}
+			var zero V
+			vs := jb.vs
+			for _, res := range results {
+				*caseID++
+				facadeLinePre(out, *caseID, "List", "source", ty, len(vs), 0, res.mo, res.mb, func() any { return col.List[V](notation).MakeFromArray(vs) },
+					J{"data": dataJ, "zero": encVal(zero), "parsed": safeParse(jb.src), "fam": "concurrent-source"})
+			}
 		}
 	}
 	for npos := 0; npos <= 2; npos++ {
